@@ -535,6 +535,11 @@ def same_name_element_and_type(ctx):
         "types-included-after": (wsdlkit.wsdl_doc(edecl.replace("<xsd:element", '<xsd:include schemaLocation="suds://types.xsd"/>'
                                                                  "<xsd:element", 1), "Foo", None), {"types.xsd": types_doc}),
         # (the other direction - included elements that need the includer's types - is known finding D35 a)
+        # a global attribute of the including schema has the name of a global element of the included document
+        "attribute-and-element-share-a-name": (
+            wsdlkit.wsdl_doc('<xsd:include schemaLocation="suds://full.xsd"/><xsd:attribute name="Foo" type="xsd:string"/>'
+                             '<xsd:attribute name="Bar" type="xsd:string"/>', "Foo", None),
+            {"full.xsd": types_doc.replace(b"</xsd:schema>", edecl.encode() + b"</xsd:schema>")}),
         "types-imported-same-namespace": (wsdlkit.wsdl_doc('<xsd:import namespace="%s" schemaLocation="suds://types.xsd"/>' % T
                                                            + edecl, "Foo", None), {"types.xsd": types_doc}),
     }
